@@ -15,8 +15,12 @@ NAME_POOLS = [
     ["n", "n_0001", "n_0001_0001", "n.", ".n"],
     ["a.b/c", "a.b/c_0001", "a.b/c.x", "a.b/", "/"],
     ["", ".", "..", "_0001", "a//b.c"],
+    ["x", "/x", "x/", "//x", "/x_0001"],                      # names equal up to a leading / trailing slash
+    ["docs/a.pdf", "/docs/a.pdf", "a.pdf", "docs/a_0001.pdf", "/docs/a_0001.pdf"],
+    ["README", "README_0001", "manual.pdf", "manual_0001.pdf", "manual"],   # no '/' at all
 ]
-CONTENTS = [b"", b"one", b"two", b"\x00\xff"]
+# contents are opaque tokens for the model; sizes around the chunk sizes an implementation may read / write / hash with
+CONTENTS = [b"", b"one", b"two", b"\x00\xff", b"k" * 65536, b"m" * 131072, b"n" * 65537, b"p" * 8192, b"q" * 4096]
 # content types are opaque tokens for the container: variants that differ only in case or parameters are different types
 CTYPES = ["application/pdf", "text/plain", "", "text/plain; charset=utf-8", "TEXT/PLAIN", "text/plain; charset=iso-8859-1"]
 
@@ -28,7 +32,7 @@ def gen_case(rng, maxlen):
     for _ in range(n):
         if rng.random() < 0.62:
             # bias towards conflicts: few contents, few types
-            ops.append(("add", rng.choice(pool), rng.randrange(len(CONTENTS) if rng.random() < .5 else 2),
+            ops.append(("add", rng.choice(pool), rng.randrange(len(CONTENTS) if rng.random() < .25 else (4 if rng.random() < .5 else 2)),
                         rng.randrange(len(CTYPES) if rng.random() < .35 else 2)))
         else:
             ops.append(("del", rng.choice(pool)))
@@ -374,7 +378,7 @@ def run(chk):
     ]
     chk.assumptions = ["sha256 collision freedom", "file-like objects return their bytes from read()"]
     return chk.finish(level="proof",
-                      rule="seeded random add/delete sequences over 5 name pools x 4 contents x 6 content types (case / parameter variants), "
+                      rule="seeded random add/delete sequences over 8 name pools x 9 contents (sizes 0 B - 128 KiB) x 6 content types (case / parameter variants), "
                            "each also under three sparser observation schedules and pairwise interleaved on two live containers "
                            "(+ all sequences of length<=4 over 10 ops in the thorough tier); non-trivial = at least 2 ops; "
                            "distinct by (pool, ops)")
